@@ -180,6 +180,7 @@ def run(ctx: Ctx):
     history_rules(ctx)
     factory_single_warmup(ctx)
     ownership_rules(ctx)
+    scaler_lives_with_its_owner(ctx)
 
 
 def ownership_rules(ctx: Ctx):
@@ -235,6 +236,54 @@ def ownership_rules(ctx: Ctx):
            f"self.update(...) inside __call__: {len(own)}; calls of <scaler>.update from elsewhere: {callers or 'none'}" +
            ("" if not callers else " -- every value is observed twice: count and M2 double, the sample standard deviation is no longer that of the values seen"),
            construct="RewardScaler.update:callers")
+
+
+def scaler_lives_with_its_owner(ctx: Ctx):
+    """C20.g (4) `all values observed so far`: the object that holds the running count / mean / M2 is created once, by the
+    constructor of the module that owns it.  Every `RewardScaler(...)` construction in rl4co, and every assignment to an attribute
+    that holds one, lies in an `__init__`: a re-creation in a lifecycle hook (setup / post_setup_hook / on_*_start run on every
+    fit / validate / test and after load_from_checkpoint) silently restarts the statistics in the middle of a training history."""
+    sites, attrs = [], set()
+    mods = [mi for mi in sorted(ctx.repo.modules.values(), key=lambda m: m.relpath) if mi.relpath.startswith("rl4co/")]
+
+    def funcs(tree):
+        for cnode in ast.walk(tree):
+            if isinstance(cnode, ast.ClassDef):
+                for f in cnode.body:
+                    if isinstance(f, (ast.FunctionDef, ast.AsyncFunctionDef)):
+                        yield cnode, f
+
+    def is_ctor(v):
+        return isinstance(v, ast.Call) and ((isinstance(v.func, ast.Name) and v.func.id == "RewardScaler") or (isinstance(v.func, ast.Attribute) and v.func.attr == "RewardScaler"))
+    for mi in mods:
+        for cnode, f in funcs(mi.tree):
+            for st in ast.walk(f):
+                if is_ctor(st):
+                    sites.append((mi.relpath, cnode.name, f.name, st.lineno, "construction"))
+                if isinstance(st, ast.Assign) and is_ctor(st.value):
+                    for t in st.targets:
+                        if isinstance(t, ast.Attribute) and isinstance(t.value, ast.Name) and t.value.id == "self":
+                            attrs.add((cnode.name, t.attr))
+    # assignments to a scaler-holding attribute, through self or through another object (`module.advantage_scaler = ...`)
+    names = {a for _c, a in attrs}
+    for mi in mods:
+        for cnode, f in funcs(mi.tree):
+            for st in ast.walk(f):
+                tg = st.targets if isinstance(st, ast.Assign) else [st.target] if isinstance(st, (ast.AugAssign, ast.AnnAssign)) else []
+                for t in tg:
+                    if isinstance(t, ast.Attribute) and t.attr in names and not (isinstance(st, ast.Assign) and is_ctor(st.value)):
+                        sites.append((mi.relpath, cnode.name, f.name, st.lineno, f"assignment to .{t.attr}"))
+                if isinstance(st, ast.Call) and isinstance(st.func, ast.Name) and st.func.id == "setattr" and len(st.args) >= 2 and isinstance(st.args[1], ast.Constant) and st.args[1].value in names:
+                    sites.append((mi.relpath, cnode.name, f.name, st.lineno, f"setattr .{st.args[1].value}"))
+    if len([x for x in sites if x[4] == "construction"]) < 2:
+        from ..model import AnalysisError
+        raise AnalysisError("C20.g: fewer than the 2 RewardScaler constructions confirmed by hand (REINFORCE, StepwisePPO)")
+    for rel, cn, fn, ln, what in sites:
+        ok = fn == "__init__"
+        ctx.ob("C20.g", f"{cn}.{fn}:RewardScaler:{what}:constructor-only", ok, f"{rel}:{ln}",
+               f"{what} in {cn}.{fn}" + ("" if ok else " -- the running statistics restart whenever this method runs again (a second fit / validate / test, load_from_checkpoint): "
+                                         "mean and standard deviation no longer cover all values observed so far"),
+               construct=f"{cn}.{fn}:scaler-created-outside-constructor")
 
 
 def factory_single_warmup(ctx: Ctx):
